@@ -51,6 +51,21 @@ fn fmt_shm(r: Result<(libc::timespec, libc::timespec, ClockStatus), ShmError>) -
     }
 }
 
+/// The next generation a case publishes under: even, non-zero, different from the current one, and NOT
+/// growing steadily - a client must re-read whenever the generation differs from the one it cached,
+/// whether it is larger or smaller (after a wrap, or after a daemon restarted over a wiped segment)
+fn next_gen(g: u16) -> u16 {
+    let k = (g / 2) as u32;
+    let g2 = (((k * 7919 + 13) % 32767 + 1) * 2) as u16;
+    if g2 != g {
+        g2
+    } else if g2 >= 65534 {
+        2
+    } else {
+        g2 + 2
+    }
+}
+
 fn ensure_client(ctx: &mut Ctx, ceb: &ClockErrorBound) {
     if ctx.client.is_none() {
         let path = scratch_dir().join("client-segment");
@@ -91,9 +106,9 @@ pub fn run_cbp(ctx: &mut Ctx, toks: &[&str]) -> String {
     ensure_client(ctx, &old);
     let c = ctx.client.as_mut().unwrap();
     unsafe { (c.map.base.add(OFF_RECORD) as *mut ClockErrorBound).write_volatile(old) };
-    c.gen = if c.gen >= 65000 { 2 } else { c.gen + 2 };
+    c.gen = next_gen(c.gen);
     c.map.set_u16(OFF_GENERATION, c.gen);
-    let g_new = if c.gen >= 65000 { 2 } else { c.gen + 2 };
+    let g_new = next_gen(c.gen);
     c.gen = g_new;
     let base = c.map.base as usize;
     let done = std::sync::Arc::new(std::sync::atomic::AtomicBool::new(false));
@@ -135,7 +150,7 @@ pub fn run(ctx: &mut Ctx, toks: &[&str]) -> String {
     let c = ctx.client.as_mut().unwrap();
     // store the record and move the generation to a fresh even value so the reader re-reads
     unsafe { (c.map.base.add(OFF_RECORD) as *mut ClockErrorBound).write_volatile(ceb) };
-    c.gen = if c.gen >= 65000 { 2 } else { c.gen + 2 };
+    c.gen = next_gen(c.gen);
     c.map.set_u16(OFF_GENERATION, c.gen);
     vclock::enable(true);
     let client = &mut c.client;
